@@ -1,4 +1,5 @@
 import Mutagen.Proofs.Describe
+import Mutagen.Proofs.GoodNew
 /-!
 # C09 — transition results describe the disk exactly under any fault
 
@@ -170,5 +171,11 @@ example :
       exact GoodNew.file false [9]
     · exact unsync_of_none X st.fs ["root", "a"] ["a"] (by decide)
   · simp [plan]
+
+/-- The hypothesis about new entries in `StepPre` is what the code enforces on
+every plan anyway: an entry that passes `EnsureValid(synchronizable = true)`
+and contains no temporary names is `GoodNew`. -/
+theorem goodNew_of_ensureValid (e : Entry) (hv : e.ensureValid true = true) (hn : NoTempNames e) : GoodNew e :=
+  goodNew_of_valid e.size e (Nat.le_refl _) hv hn
 
 end Mutagen.Properties.C09
